@@ -132,6 +132,31 @@ Definition init (d : row) (pr : nat -> list op) : state := {| sdb := d; ss := fu
 Definition alone (k : nat) (sch : schema) (d : row) (p : list op) : state :=
   run k sch (init d (fun _ => p)) (repeat 0%nat (length p)).
 
+(* ---------------------------------------------------------------- a session seen alone (for the serial formulation)
+   the session-local effect of one non-commit operation, reading the row d if the object has to be loaded *)
+Definition sess_op (sch : schema) (d : row) (x : sess) (o : op) : sess :=
+  match st x with
+  | Active =>
+      match o with
+      | Read a => fst (fst (do_get sch (do_load d x) a))
+      | Write a (EConst v) => do_set (do_load d x) a v
+      | Write a (EPlus b dl) =>
+          match do_get sch (do_load d x) b with
+          | (x2, Some z, _) => do_set x2 a (Some (z + dl))
+          | (x2, None, _) => set_status x2 (Failed E_TYPE)
+          end
+      | Commit => x
+      end
+  | _ => x
+  end.
+Definition sess_fold (sch : schema) (d : row) (x : sess) (ops : list op) : sess := fold_left (sess_op sch d) ops x.
+Definition is_commit (o : op) : bool := match o with Commit => true | _ => false end.
+
+(* the row after running the operations p and then committing, alone, on row d (a session alone always passes its own check) *)
+Definition serial_row (k : nat) (sch : schema) (d : row) (p : list op) : row :=
+  let x := sess_fold sch d sess0 p in
+  match st x with Active => apply_sets d (set_list k x) | _ => d end.
+
 (* ---------------------------------------------------------------- executable interface for the correspondence run *)
 
 Definition row_of (l : list val) : row := fun a => nth a l None.
